@@ -140,13 +140,13 @@ def _careful(binary, lines, per_line_timeout, env=None):
     return out
 
 
-def run_lines(binary, lines, tag, chunk_timeout=120, per_line_timeout=5.0, nproc=None):
-    """Run `lines` through `binary` in parallel chunks. Returns list of answers (same length)."""
+def run_lines(binary, lines, tag, chunk_timeout=120, per_line_timeout=5.0, nproc=None, chunk_lines=500):
+    """Run `lines` through `binary` in parallel chunks (of at least `chunk_lines` lines). Returns list of answers (same length)."""
     n = len(lines)
     if n == 0:
         return []
     nproc = nproc or NPROC
-    k = max(1, min(nproc, (n + 499) // 500))
+    k = max(1, min(nproc, (n + chunk_lines - 1) // chunk_lines))
     size = (n + k - 1) // k
     d = os.path.join(WORK, "%s-%d" % (tag, os.getpid()))
     os.makedirs(d, exist_ok=True)
